@@ -5,6 +5,7 @@ import re
 from nvlib import engine as E
 from nvlib import extract as X
 from nvlib.check import Prop
+from props import c12_extract as AX
 
 WORDS = ["a", "b", "c", "d", "e", "f", "g", "h", "ab", "cd", "x1", "y2", "k", "q", "zz9"]
 SUBWORDS2 = ["m1", "m2", "m3"]      # command() texts, level 2 (their scripts may call level 1)
@@ -15,7 +16,8 @@ MAX_BYTES_PER_USER = 300            # keeps every interactive_t.text far away fr
 class C12(Prop):
     id = "C12"
     title = "Buffered commands are served fairly: one per user per cycle, nobody starves"
-    lean_modules = ["NV.C12.Props", "NV.C12.Witness", "NV.C12.Trace", "NV.C12.Fifo3", "NV.C12.Fifo5", "NV.C12.Neg", "NV.C12.Flag"]
+    lean_modules = ["NV.C12.Props", "NV.C12.Witness", "NV.C12.Trace", "NV.C12.Fifo3", "NV.C12.Fifo5", "NV.C12.Neg", "NV.C12.Flag",
+                    "NV.C12.Lemmas4"]
     lean_modules_ = None
     theorems = [
         "NV.C12.flag_bits",
@@ -24,6 +26,13 @@ class C12(Prop):
         "NV.C12.loopCalls_spec",
         "NV.C12.grantCond_spec",
         "NV.C12.countCond_spec",
+        "NV.C12.pollBlocks_spec",
+        "NV.C12.growBy_pos",
+        "NV.C12.backendOrder_spec",
+        "NV.C12.errorReentry_spec",
+        "NV.C12.gucOrder_spec",
+        "NV.C12.gucScanOrder_spec",
+        "NV.C12.pucOrder_spec",
         "NV.C12.cursor_in_bounds",
         "NV.C12.run_never_crashes",
         "NV.C12.processIO_safe",
@@ -60,6 +69,16 @@ class C12(Prop):
         "NV.C12.reframe_enc",
         "NV.C12.consume_line",
         "NV.C12.consume_char",
+        "NV.C12.cycleStep_weight",
+        "NV.C12.cycleStep_weight_le",
+        "NV.C12.cycleRun_fold",
+        "NV.C12.cycleRun_quiet",
+        "NV.C12.cycleRun_last",
+        "NV.C12.loop_bound_sufficient_run",
+        "NV.C12.struct_run",
+        "NV.C12.efun_run",
+        "NV.C12.G_cycleRun",
+        "NV.C12.cmdLoop_thrown_false",
     ]
     witness_theorems = []
     consts = [("hasCmdTurn", "HAS_CMD_TURN"), ("cmdInBuf", "CMD_IN_BUF"), ("singleChar", "SINGLE_CHAR"),
@@ -167,6 +186,25 @@ class C12(Prop):
                    "def grantCond (occupied : Bool) : Bool := %s(%soccupied)" % (neg, "" if grants else "false && ", neg))
         out.append("/-- C (backend, grant loop): `connected_users++` under the same condition -/\n"
                    "def countCond (occupied : Bool) : Bool := %s(%soccupied)" % ("" if counts else "false && ", neg))
+        # (d) the poll timeout: zero when a heart beat is due or a command is pending
+        m5 = re.findall(r"if \(HEART_BEAT_FLAG\s*\(\) \|\| has_pending_commands\)\s*\{[^{}]*?timeout\.tv_sec = (\d+);[^{}]*\}\s*"
+                        r"else\s*\{[^{}]*?timeout\.tv_sec = (\d+);[^{}]*\}\s*nb = do_comm_polling \(&timeout\);", back, re.S)
+        if len(m5) != 1:
+            raise X.TieBroken("guard:poll timeout", "cannot locate `if (HEART_BEAT_FLAG() || has_pending_commands) {tv_sec = A} else "
+                              "{tv_sec = B}` directly in front of do_comm_polling() in backend()")
+        out.append("/-- C (backend): `timeout.tv_sec` handed to do_comm_polling -/\n"
+                   "def pollTimeout (heartBeat pending : Bool) : Nat := if heartBeat || pending then %s else %s" % m5[0])
+        # has_pending_commands is set from CMD_IN_BUF of occupied slots, inside the grant loop
+        if not re.search(r"if \(!has_pending_commands && \(all_users\[i\]->iflags & CMD_IN_BUF\)\)\s*\{\s*has_pending_commands = 1;\s*\}",
+                         gbody) or len(re.findall(r"has_pending_commands\s*=[^=]", back)) != 2:
+            raise X.TieBroken("guard:has_pending_commands", "has_pending_commands is no longer `some occupied slot has CMD_IN_BUF`")
+        # (e) the connection table grows by a constant number of slots
+        m6 = re.findall(r"int new_max_users = max_users \+ (\d+);", comm)
+        if len(m6) != 1 or not re.search(r"while \(max_users < new_max_users\)\s*all_users\[max_users\+\+\] = 0;", comm):
+            raise X.TieBroken("guard:table growth", "cannot locate `new_max_users = max_users + N` / the fill loop in new_interactive()")
+        out.append("/-- C (new_interactive): `int new_max_users = max_users + %s;` -/\ndef growBy : Nat := %s" % (m6[0], m6[0]))
+        # (f) statement order of backend()'s loop, get_user_command() and process_user_command() from the clang AST
+        out.append(AX.generate(bdir))
         return "\n".join(out)
 
     def prepare(self, ctx):
@@ -234,6 +272,21 @@ class C12(Prop):
         mk("sparse-two-high-slots", ["script u20 =k kick,u20;kick,u19"] + conns(20) +
            ["close u%d" % i for i in range(3, 19)] + ["cycle", "cycle", "send u20 t~", "cycle",
             "send u1 a~b~c~d~e~f~", "send u2 a~b~c~d~e~f~", "send u19 x~", "send u20 k~", "cycle"] + ["cycle"] * 8)
+        # uncaught LPC errors: the iteration is aborted (longjmp to the top of backend()), the loop restarts at once
+        mk("error-aborts-cycle", ["script u1 =x err", "script u2 =y ecmd,u1,m1", "script u1 =m1 err"] + conns(3) +
+           ["send u1 a~x~b~", "send u2 p~y~q~", "send u3 r~s~t~"] + ["cycle"] * 4)
+        mk("error-every-command", ["script u1 =%s err" % w for w in "abcde"] + conns(2) +
+           ["send u1 a~b~c~d~e~f~", "send u2 p~q~r~", "cycle", "cycle", "cycle"])
+        mk("error-in-callbacks", ["script u1 =g gc", "script u1 =z err;gc", "script u2 =h it", "script u2 =w gc;err",
+                                  "script u2 =k err"] + conns(2) +
+           ["send u1 g~zab~", "send u2 h~w~k", "cycle", "cycle", "send u2 ~x~", "cycle", "cycle", "cycle", "cycle"])
+        mk("error-and-accept", ["script u1 =x err", "script u1 =y err"] + conns(1) +
+           ["conn", "conn", "conn", "send u1 x~y~a~", "cycle", "send u2 p~", "send u3 q~", "cycle", "cycle", "cycle"])
+        mk("error-after-leaving", ["script u1 =d drop,u1;err", "script u2 =k kick,u3;err", "script u3 =s kick,u3;err"] +
+           conns(4) + ["send u%d a~b~" % i for i in (1, 2, 3, 4)] + ["send u1 d~", "send u2 k~", "send u3 s~"] +
+           ["cycle"] * 5)
+        mk("error-sparse-last-slot", ["script u49 =x err", "script u1 =x err"] + ["conn"] * 49 + ["cycle"] * 50 +
+           ["close u%d" % i for i in range(2, 49)] + ["cycle", "send u49 x~a~x~b~", "send u1 a~x~b~"] + ["cycle"] * 4)
         mk("kick-waiting-user", ["script u3 =k kick,u1;kick,u2", "script u2 =s kick,u2;gc"] + conns(3) +
            ["send u1 a~b~", "send u2 a~b~", "send u3 k~c~", "cycle", "cycle", "conn", "cycle", "send u4 s~", "cycle", "cycle"])
         mk("self-kick-and-drop", ["script u2 =s kick,u2;ecmd,u1,m1", "script u1 =d drop,u1;ecmd,u1,m1;gc", "script u1 =m1 it"] +
@@ -261,7 +314,8 @@ class C12(Prop):
     def gen_script(self, rng, nusers, level):
         ops = []
         for _ in range(rng.range(1, 3)):
-            k = rng.weighted([("kick", 2), ("drop", 2), ("ecmd", 5 if level > 1 else 0), ("gc", 3), ("it", 2), ("itn", 1)])
+            k = rng.weighted([("kick", 2), ("drop", 2), ("ecmd", 5 if level > 1 else 0), ("gc", 3), ("it", 2), ("itn", 1),
+                              ("err", 2)])
             if k in ("kick", "drop"):
                 ops.append("%s,u%d" % (k, rng.range(1, nusers + 1)))
             elif k == "ecmd":
@@ -304,7 +358,8 @@ class C12(Prop):
             # get_char heavy: lines typed while a get_char() is pending, partial lines typed ahead of it
             for u in range(1, min(nmax, 4) + 1):
                 for wd in (rng.choice(WORDS), rng.choice(WORDS)):
-                    lines.append("script u%d =%s %s" % (u, wd, rng.choice(["gc", "gc", "gc;it", "it", "itn", "gc;ecmd,u%d,n1" % u])))
+                    lines.append("script u%d =%s %s" % (u, wd, rng.choice(["gc", "gc", "gc;it", "it", "itn", "gc;ecmd,u%d,n1" % u,
+                                                                           "gc;err", "err"])))
         nconn = 0
         nacc = 0
         closed = set()
@@ -447,7 +502,7 @@ class C12(Prop):
         return out
 
     def histogram(self, cases, impl):
-        h = {"cycles": 0, "buffered_cmds": 0, "efun_cmds": 0, "kicks": 0, "drops": 0, "getchar": 0, "input_to": 0,
+        h = {"cycles": 0, "aborted_cycles": 0, "buffered_cmds": 0, "efun_cmds": 0, "kicks": 0, "drops": 0, "getchar": 0, "input_to": 0,
              "cycles_with_3plus_served": 0, "cycles_leaving_backlog": 0, "max_users_100": 0, "closes": 0, "logons": 0}
         for c in cases:
             served = 0
@@ -471,6 +526,8 @@ class C12(Prop):
                     h["getchar"] += 1
                 elif t[0] == "it" and t[-1] == "1":
                     h["input_to"] += 1
+                elif t[0] == "abort":
+                    h["aborted_cycles"] += 1
                 elif t[0] == "close":
                     h["closes"] += 1
                 elif t[0] == "logon":
